@@ -240,6 +240,16 @@ def run_case(p):
     call('get_state_dict', lambda: model.get_state_dict())
     # a second predict on the training features themselves (the tensor the leaf centers were taken from)
     call('predict_train', lambda: model.predict(caller['X']))
+    # online scoring: requests of one and of three rows (a size-dependent code path must restore the process state like any other)
+    for nrows in (1, 3):
+        small = caller['X_query'][:nrows]
+        small = small.clone() if isinstance(small, torch.Tensor) else small.copy()
+        caller[f'X_query_{nrows}'] = small
+        call(f'predict_{nrows}_rows', lambda small=small: model.predict(small))
+        if is_class:
+            call(f'predict_proba_{nrows}_rows', lambda small=small: model.predict_proba(small))
+    if not model.split_temperature:
+        call('get_grads_1_row', lambda: model.get_grads(caller['X_query_1']))
     # a query matrix with missing cells (NaN, +inf, -inf): whatever the library answers for such rows (an exception included), the
     # caller's matrix keeps its bytes
     qm = caller['X_query'].clone() if isinstance(caller['X_query'], torch.Tensor) else caller['X_query'].copy()
